@@ -285,7 +285,8 @@ Proof. induction 1 as [|p t Hp _ IH]; [cbn; lia|]. cbn [zsum fold_right]. fold (
 Theorem norm_counts_normalised counts max_log al probs :
   5 <= max_log -> Forall (fun c => 0 <= c) counts -> 0 < last counts 0 -> (2 <= length counts)%nat ->
   norm_counts counts max_log true = ROk (al, probs) ->
-  dist_ok al probs /\ 5 <= al <= max_log /\ length probs = length counts /\ Forall (fun p => 0 <= p) probs.
+  dist_ok al probs /\ 5 <= al <= max_log /\ length probs = length counts /\ Forall (fun p => 0 <= p) probs /\
+  zsum probs = 2 ^ al /\ (forall i, 0 < nth i counts 0 -> 1 <= nth i probs 0).
 Proof.
   intros Hml Hc Hlast Hlen. unfold norm_counts.
   replace (Nat.max (length counts) 2) with (length counts) by lia. rewrite Nat.sub_diag. cbn [zeros]. rewrite app_nil_r.
@@ -331,11 +332,13 @@ Proof.
   destruct (avoid_step p3 al0 al probs ltac:(lia) Hne3 N3 S3 Hfin) as (-> & N4 & S4 & L4 & Keep).
   assert (Hcne : counts <> []) by (intros ->; cbn in Hlen; lia).
   pose proof (keeps_last counts p3 K3 Hcne Hlast) as Hl3.
-  specialize (Keep _ Hl3). rewrite <- L4 in Keep.
+  pose proof Keep as Keep0. specialize (Keep _ Hl3). rewrite <- L4 in Keep.
   split.
   - unfold dist_ok. split; [eapply Forall_impl; [|exact N4]; cbn; intros; lia|].
     split; [rewrite weight_is_sum by exact N4; exact S4|].
     rewrite last_is_nth by (intros ->; cbn in L4; lia).
     replace (nth (length probs - 1) probs 1) with (nth (length probs - 1) probs 0) by (apply nth_indep; lia). lia.
-  - split; [exact Hal|]. split; [congruence|exact N4].
+  - split; [exact Hal|]. split; [congruence|]. split; [exact N4|]. split; [exact S4|].
+    intros i Hi. apply Keep0. clear - K3 Hi. revert i Hi. induction K3 as [|c p a l (K0 & K1) _ IH]; intros i Hi; [destruct i; cbn in Hi; lia|].
+    destruct i; cbn [nth] in *; [apply K1; exact Hi|apply IH; exact Hi].
 Qed.
